@@ -62,6 +62,18 @@ func genTreeScenario(seed uint64, o treeOpts) *Scenario {
 				pre = append(pre, journalVar("shared", 2)...)
 			}
 		}
+		if o.wide && i < 2 {
+			// a mapping with exactly 8 members: one full bucket of the Go runtime's map, so every
+			// random iteration start yields a different rotation of any order-dependent answer
+			pre = append(pre, nameWord("m")...)
+			pre = append(pre, Macro{K: "op", Op: "RSVJNAL", A: []string{"0x200", "0x3", typeID("mapping")}})
+			for k := 0; k < 8; k++ {
+				pre = append(pre, Macro{K: "op", Op: "IVVVJNAL", A: []string{"0x3", hxu(uint64(100 + k)), hxu(uint64(k + 1)), "0x0", typeID("uint256"), typeID("mapping")}})
+				if r.Bool() {
+					pre = append(pre, Macro{K: "op", Op: "VVJNAL", A: []string{hxu(uint64(100 + k)), "0x0", "0x20", typeID("uint256")}})
+				}
+			}
+		}
 		pre = append(pre, Macro{K: "op", Op: "SSTORE", A: []string{"0x1", hxu(uint64(0x100 + r.Intn(200)))}})
 		if o.journal {
 			pre = append(pre, journalChange(1))
